@@ -280,6 +280,31 @@ def frame_map(data):
     return cls, off
 
 
+def contract_synced(opt, ops):
+    """Number of logical records that the API CONTRACT makes durable before the last operation starts — computed
+    from the case line alone, not from the fdatasync the hook observed: an explicit WAL.Sync() that returned nil,
+    and, without optimizedFsync, every SaveSnapshot and every Save with entries (raft.MustSync), cover everything
+    saved before they returned. (With optimizedFsync only the explicit Sync is counted: Save/SaveSnapshot/cut may
+    legitimately skip the fdatasync there, W1.) On the unmodified code this never exceeds what the hook saw."""
+    n = 1                    # Create's own marker
+    best = 0
+    for o in ops[:-1]:
+        f = o.split(":")
+        if f[0] == "S":
+            ents = [e for e in f[2].split("|") if e] if len(f) > 2 else []
+            st = [int(x, 16) for x in f[1].split(",")]
+            n += len(ents) + (1 if any(st) else 0)
+            if ents and not opt:
+                best = n
+        elif f[0] == "N":
+            n += 1
+            if not opt:
+                best = n
+        elif f[0] == "Y":
+            best = n
+    return best
+
+
 def oracle(cases, impl):
     """Direct oracle: the property evaluated on the implementation's outputs only.
     Every reopened crash image must be an error, or exactly effect(prefix) for a prefix of the saved
@@ -304,6 +329,9 @@ def oracle(cases, impl):
                                   what="the wal refused or failed a save history: %s" % out))
                 continue
             cur["meta"] = c[3]
+            cur["contract"] = contract_synced(c[1] == "1", c[4].split(";"))
+            if cur["contract"] > (cur["pre"][2] if cur["pre"] is not None else 0):
+                stats["contract_beyond_hook"] = stats.get("contract_beyond_hook", 0) + 1
             cur["fmap"] = [frame_map(f[1]) for f in cur["files"]]
             for o in c[4].split(";"):
                 hist["op:" + o[:1]] = hist.get("op:" + o[:1], 0) + 1
@@ -338,6 +366,9 @@ def oracle(cases, impl):
         req = 0
         if ik in ("F", "T", "X", "Z", "D") and cur["pre"] is not None:
             req = cur["pre"][2]
+        if ik in ("F", "T", "X", "Z", "D"):
+            # what Sync()/Save/SaveSnapshot promised when they returned nil, whether or not an fdatasync was seen
+            req = max(req, cur["contract"])
         fclass = None
         if ik == "B":
             f = c[2].split(":")
@@ -373,7 +404,9 @@ def oracle(cases, impl):
         if not final.startswith("ok"):
             stats["loud"] += 1
             first_idx = int(cur["files"][0][0].split("-")[1], 16)
-            if ik in ("F", "D") and effect(recs, len(recs), o["at"], drop) is not None \
+            # (every prefix must be readable: ReadAll refuses at a transient gap even if a later overwrite from a
+            # lower index heals it in the whole-log meaning)
+            if ik in ("F", "D") and all(effect(recs, k, o["at"], drop) is not None for k in range(drop, len(recs) + 1)) \
                     and (o["at"] == (0, 0) or ("n", o["at"][0], o["at"][1]) in recs[drop:]) \
                     and first_idx <= o["at"][0] and final != "snapmismatch":
                 fails.append(dict(name="undamaged-" + cid, case=case,
